@@ -58,8 +58,8 @@ def run_check(copy: str, prop: str, tier: str, scale: float, seed: int = 1):
     return p.returncode, sigs, round(time.time() - t, 1), out
 
 
-def adopt(prop: str, seed_dir: str, letter: str) -> int:
-    name = "%s-%s" % (prop, letter)
+def adopt(prop: str, seed_dir: str, letter: str, suffix: str = "") -> int:
+    name = "%s-%s%s" % (prop, suffix, letter)
     patch = os.path.join(seed_dir, "patch_%s.diff" % letter)
     demo = os.path.join(seed_dir, "demo_%s.py" % letter)
     notes = os.path.join(seed_dir, "notes_%s.txt" % letter)
@@ -139,12 +139,12 @@ def main() -> int:
     ap = argparse.ArgumentParser()
     sub = ap.add_subparsers(dest="cmd", required=True)
     a = sub.add_parser("adopt")
-    a.add_argument("prop"); a.add_argument("seed_dir"); a.add_argument("letter")
+    a.add_argument("prop"); a.add_argument("seed_dir"); a.add_argument("letter"); a.add_argument("--suffix", default="")
     r = sub.add_parser("run")
     r.add_argument("names", nargs="*"); r.add_argument("--tier", default="quick"); r.add_argument("--scale", type=float, default=1.0)
     args = ap.parse_args()
     if args.cmd == "adopt":
-        return adopt(args.prop, args.seed_dir, args.letter)
+        return adopt(args.prop, args.seed_dir, args.letter, args.suffix)
     return run(args.names, args.tier, args.scale)
 
 
